@@ -1,6 +1,7 @@
 import RModel.Base.Lit
 import RModel.Model.Fs
 import RModel.Model.Apply
+import RModel.Lemmas.RenamePhase
 /-
   C05 — Renaming never overwrites or loses existing files.   (property theorems only)
 
@@ -113,7 +114,7 @@ theorem renamePhase_free_keeps_nodes (t : Tree) (perf : List (Path × Path)) (rs
     anything is changed, for every tree and every plan (any number of edits and renames). -/
 theorem occupied_refused (t : Tree) (p : Plan)
     (h : ∃ r ∈ p.rens, r.newPath ≠ [] ∧ r.newPath ≠ r.path ∧ (lookup t r.newPath).isSome = true) :
-    (applyPlan t p).outcome = .destExists ∧ (applyPlan t p).tree = t := by
+    ((applyPlan t p).outcome = .destExists ∨ (applyPlan t p).outcome = .sharedDest) ∧ (applyPlan t p).tree = t := by
   obtain ⟨r, hr, hne, hnp, hex⟩ := h
   have hpf : preflightOk t p.rens = false := by
     unfold preflightOk
@@ -129,8 +130,45 @@ theorem occupied_refused (t : Tree) (p : Plan)
       | none => rw [hl] at hex; simp at hex
       | some _ => rfl
     simp [h1, h2, h3]
-  unfold applyPlan
-  simp [hpf]
+  exact RenamePhase.applyPlan_refused t p hpf
+
+/-- C05 "several sources mapping to one destination": two renames of one plan with the same destination and
+    different sources (neither an identity rename) ⇒ refused before anything is changed, for every tree and every
+    plan.  (Repo commit 01297aa; `replace 'foo\d' bar` used to turn `foo1.txt` and `foo2.txt` into one `bar.txt`.) -/
+theorem shared_destination_refused (t : Tree) (p : Plan)
+    (h : ∃ r ∈ p.rens, ∃ r' ∈ p.rens, r.newPath = r'.newPath ∧ r.path ≠ r'.path ∧
+      r.newPath ≠ [] ∧ r.newPath ≠ r.path ∧ r'.newPath ≠ r'.path) :
+    ((applyPlan t p).outcome = .destExists ∨ (applyPlan t p).outcome = .sharedDest) ∧ (applyPlan t p).tree = t := by
+  obtain ⟨r, hr, r', hr', he, hne, hn0, hid, hid'⟩ := h
+  cases hp : preflight t [] p.rens with
+  | some o =>
+    rw [RenamePhase.applyPlan_preflight_refusal t p hp]
+    rcases RenamePhase.preflight_some _ _ hp with rfl | rfl
+    · exact ⟨Or.inr rfl, rfl⟩
+    · exact ⟨Or.inl rfl, rfl⟩
+  | none =>
+    exfalso
+    have hpw := (RenamePhase.distinct_of_preflight_none (by decide) p.rens [] hp).2
+    have hskip : ∀ x : Ren, x.newPath ≠ [] → x.newPath ≠ x.path → skipRen x = false := by
+      intro x h0 h1
+      unfold skipRen
+      have : x.newPath.isEmpty = false := by
+        cases hx : x.newPath with
+        | nil => exact absurd hx h0
+        | cons _ _ => rfl
+      rw [this, Bool.false_or]
+      exact beq_false_of_ne h1
+    have hrr : r ≠ r' := fun h => hne (by rw [h])
+    exact hne (RenamePhase.pairwise_forall_of_symm
+      (R := fun a b : Ren => skipRen a = false → skipRen b = false → a.newPath = b.newPath → a.path = b.path)
+      (fun a b h hb ha he => (h ha hb he.symm).symm) hpw r hr r' hr' hrr
+      (hskip r hn0 hid) (hskip r' (he ▸ hn0) hid') he)
+
+/-- non-vacuity: the `foo\d -> bar` scenario is refused as a shared destination, tree untouched -/
+example : (applyPlan [([b!"foo1.txt"], .file b!"A" 420), ([b!"foo2.txt"], .file b!"B" 420)]
+    { hunks := [], rens := [{ path := [b!"foo1.txt"], newPath := [b!"bar.txt"], kind := .file },
+                            { path := [b!"foo2.txt"], newPath := [b!"bar.txt"], kind := .file }] }).outcome
+    = .sharedDest := by decide
 
 /-- non-vacuity: the occupied-file scenario is refused, tree untouched -/
 example : (applyPlan [([b!"foo_bar.txt"], .file b!"new\n" 420), ([b!"baz_qux.txt"], .file b!"precious\n" 420)]
